@@ -36,6 +36,7 @@ import (
 	sqlite3 "github.com/mattn/go-sqlite3"
 	"github.com/pegnet/pegnetd/config"
 	"github.com/pegnet/pegnetd/fat/fat2"
+	"github.com/pegnet/pegnetd/node"
 	"github.com/pegnet/pegnetd/node/conversions"
 	"github.com/pegnet/pegnetd/node/pegnet"
 )
@@ -138,6 +139,15 @@ func (s *APIServer) getMiningDominance(ctx context.Context, data json.RawMessage
 	return result
 }
 
+// averagesAt computes the rolling rate averages on a private Pegnetd value that
+// shares only the database handle with the node. GetPegNetRateAverages rewrites
+// the averages cache of its receiver; API goroutines must never do that to the
+// cache the sync routine prices conversions with.
+func (s *APIServer) averagesAt(ctx context.Context, height uint32) map[fat2.PTicker]uint64 {
+	reader := &node.Pegnetd{Pegnet: s.Node.Pegnet}
+	return reader.GetPegNetRateAverages(ctx, height).(map[fat2.PTicker]uint64)
+}
+
 type ResultGlobalRichList struct {
 	Address string `json:"address"`
 	Equiv   uint64 `json:"pusd"`
@@ -156,7 +166,7 @@ func (s *APIServer) getGlobalRichList(ctx context.Context, data json.RawMessage)
 
 	height := s.Node.GetCurrentSync()
 	rates, realHeight, err := s.Node.Pegnet.SelectMostRecentRatesBeforeHeight(nil, s.Node.Pegnet.DB, height+1)
-	averages := s.Node.GetPegNetRateAverages(ctx, realHeight).(map[fat2.PTicker]uint64)
+	averages := s.averagesAt(ctx, realHeight)
 	if err != nil {
 		return err
 	}
@@ -233,7 +243,7 @@ func (s *APIServer) getRichList(ctx context.Context, data json.RawMessage) inter
 
 	height := s.Node.GetCurrentSync()
 	rates, rateHeight, err := s.Node.Pegnet.SelectMostRecentRatesBeforeHeight(nil, s.Node.Pegnet.DB, height+1)
-	averages := s.Node.GetPegNetRateAverages(ctx, rateHeight).(map[fat2.PTicker]uint64)
+	averages := s.averagesAt(ctx, rateHeight)
 	if err != nil {
 		return err
 	}
